@@ -5,6 +5,7 @@ import (
 	"encoding/hex"
 	"encoding/json"
 	"fmt"
+	"math/rand"
 	"os"
 	"path/filepath"
 	"regexp"
@@ -254,6 +255,13 @@ func RunSpellings(tier, rule string) int {
 	for _, s := range shapes {
 		evs = append(evs, byShape[s])
 	}
+	bevs, bmc, _, err := borrowedSpellingClasses(sc, devs, tier, rand.New(rand.NewSource(seed+13)))
+	if err != nil {
+		return infra(prop, err)
+	}
+	evs = append(evs, bevs...)
+	mc.Distinct += bmc.Distinct
+	mc.Generated += bmc.Generated
 	if err := runEq(sc, evs); err != nil {
 		return infra(prop, err)
 	}
@@ -320,6 +328,13 @@ func finishEq(prop, tier string, seed int64, rule string, sc *work.Scratch, evs 
 		},
 		Assumptions: []string{"the harness renders the TLC-emitted spelled document faithfully as JSON and YAML text"},
 		WallS:       time.Since(t0).Seconds(), Violations: confirmed}
+	if len(mc.Actions) > 0 {
+		acts := map[string]any{}
+		for k, v := range mc.Actions {
+			acts[k] = map[string]int64{"distinct": v[0], "generated": v[1]}
+		}
+		ev.Coverage["spec_actions"] = acts
+	}
 	if err := WriteEvidence(ev); err != nil {
 		return infra(prop, err)
 	}
